@@ -4,7 +4,17 @@ import json, os
 HERE = os.path.dirname(os.path.abspath(__file__))
 BASE = "cd /repo && /venv/bin/python -m pytest -ra -q -p no:cacheprovider --timeout=900 --continue-on-collection-errors"
 E1 = "E1 controlled-scheduler explorer (real threads, virtual OS)"
+E2N = "real sequential transition functions; exact-state merging (pickled concrete state)"
 CHECKS = {
+ "C01": dict(engine="E2", technique="exhaustive enumeration of a finite grammar instance and of all single-token mutations + explicit-state BFS over token sequences on the real parser, compared step-wise with an independent RFC 9112 reference parser",
+   text="Every sentence of the finite request-grammar instance (x follow-up x leading CRLF x 3 limit settings), every single-token mutation of 8 base messages at every position, and every token sequence up to the stated depth after a chunked head / a request line are executed on the real server and must be delivered, refused or left pending exactly as an independent reference parser says, with a sentinel request exposing any desynchronisation.",
+   note="one fixed schedule, unsplit delivery; tolerances T1-T9 (DESIGN appendix A) accept either outcome where RFC 9112 gives latitude; reference parser is trusted", ref="DESIGN.md §4 C01, appendix A"),
+ "C02": dict(engine="E2", technique="explicit-state BFS of the cut graph (node = offset + exact concrete state, edge = next read length) covering all 2^(n-1) segmentations of each stream",
+   text="For every stream of the corpus all segmentations are covered as paths of the exhaustively explored cut graph of the real channel/parser/receiver; all terminal observations must coincide.",
+   note="merging only on byte-identical pickled state; node cap reported if hit; one fixed thread schedule", ref="DESIGN.md §4 C02"),
+ "C17": dict(engine="E2", technique="explicit-state BFS over operation histories of the real buffers with exact concrete-state merging, against a reference byte queue",
+   text="All histories of append/peek/consume/skip/len/file-view operations up to the stated depth, over sizes around the 8 KiB string limit and each overflow threshold, are executed on the real OverflowableBuffer (real BytesIO/TemporaryFile) and compared step by step with a reference bytearray queue and a final drain; ReadOnlyFileBasedBuffer likewise over prepare sizes, file sizes and start offsets.",
+   note="prune() outside the quantifier; random histories beyond the bound are supplementary and non-deciding", ref="DESIGN.md §4 C17"),
  "C14": dict(engine="E1", technique="stateless exhaustive schedule enumeration (pre-emption/deviation bounded) of the real dispatcher under a controlled scheduler",
    text="Every interleaving of submitters, workers, resize and shutdown of the real ThreadedTaskDispatcher within the stated deviation bound (pre-emption at every dispatcher source line and lock/condition operation) is executed and checked for exactly-once, FIFO hand-out, worker-count convergence and shutdown effects.",
    note="CPython line-atomicity; virtual threading primitives replace threading.Lock/Condition/Thread; bounds per scenario in evidence.parts", ref="DESIGN.md §4 C14, §2 E1"),
